@@ -71,3 +71,68 @@ def pairing (p : Option (BlsFp × BlsFp)) (q : Option (BlsFp2 × BlsFp2)) : F12 
 def gtGenerator : F12 := (fp12OfList? Gen.blsP Gen.blsGtGen).getD 1
 
 end MidnightZK.C13.Bls
+
+/-!
+## The optimal ate pairing of BN254 by definition
+
+`a(Q, P) = (f_{6x+2,Q}(P) · l_{[6x+2]Q, π(Q)}(P) · l_{[6x+2]Q+π(Q), −π²(Q)}(P))^((p¹²−1)/r)` with affine
+arithmetic over the full degree-12 field, plain binary expansion of `6x + 2` (no NAF), D-type untwist
+`(x', y') ↦ (x'w², y'w³)`, `π` = the `p`-power Frobenius on coordinates. Independent of the mirrored
+code of `BnPairing.lean` (different coordinates, different addition chain, no sparse products, no
+cyclotomic shortcuts); compared with the real `Bn256::pairing`.
+-/
+namespace MidnightZK.C13.BnAte
+open MidnightZK MidnightZK.C13
+
+abbrev F12 := BnFq12
+
+def ofFp (a : BnFq) : F12 := ⟨⟨⟨a, 0⟩, 0, 0⟩, 0⟩
+def ofFp2 (a : BnFq2) : F12 := ⟨⟨a, 0, 0⟩, 0⟩
+def w : F12 := ⟨0, 1⟩
+
+/-- Untwist `E'(Fq2) → E(Fq12)` for the D-type twist `y² = x³ + 3/ξ`: `(x', y') ↦ (x'w², y'w³)`. -/
+def untwist (q : BnFq2 × BnFq2) : F12 × F12 :=
+  let w2 := w * w
+  (ofFp2 q.1 * w2, ofFp2 q.2 * (w2 * w))
+
+def lineAt (px py : F12) (t : F12 × F12) (lam : F12) : F12 :=
+  (py - t.2) - lam * (px - t.1)
+
+/-- Chord step: `f · l_{T,Q}(P)` and `T + Q` (affine; `T ≠ ±Q` on the inputs used). -/
+def addPt (px py : F12) (f : F12) (t q : F12 × F12) : F12 × (F12 × F12) :=
+  let lam := (t.2 - q.2) * (t.1 - q.1)⁻¹
+  let x3 := lam * lam - t.1 - q.1
+  (f * lineAt px py t lam, (x3, lam * (t.1 - x3) - t.2))
+
+def millerBits (px py : F12) (q : F12 × F12) : List Bool → F12 → F12 × F12 → F12 × (F12 × F12)
+  | [], f, t => (f, t)
+  | b :: bs, f, t =>
+    let three : F12 := ofFp ⟨3⟩
+    let lam := three * (t.1 * t.1) * (t.2 + t.2)⁻¹
+    let f := f * f * lineAt px py t lam
+    let x3 := lam * lam - (t.1 + t.1)
+    let t := (x3, lam * (t.1 - x3) - t.2)
+    if b then
+      let (f, t) := addPt px py f t q
+      millerBits px py q bs f t
+    else millerBits px py q bs f t
+
+def frobPt (k : Nat) (q : F12 × F12) : F12 × F12 := (Frob.frob k q.1, Frob.frob k q.2)
+
+def miller (p : BnFq × BnFq) (q : BnFq2 × BnFq2) : F12 :=
+  let qq := untwist q
+  let (px, py) := (ofFp p.1, ofFp p.2)
+  let s := 6 * Gen.bnX + 2
+  let (f, t) := millerBits px py qq ((bitsMsb s).drop 1) 1 qq
+  let q1 := frobPt 1 qq
+  let q2 := frobPt 2 qq
+  let (f, t) := addPt px py f t q1
+  let (f, _) := addPt px py f t (q2.1, -q2.2)
+  f
+
+def pairing (p : Option (BnFq × BnFq)) (q : Option (BnFq2 × BnFq2)) : F12 :=
+  match p, q with
+  | some p, some q => powBits (· * ·) 1 (miller p q) ((Gen.bnP ^ 12 - 1) / Gen.bnR)
+  | _, _ => 1
+
+end MidnightZK.C13.BnAte
